@@ -5,6 +5,9 @@ overrides by Parameter(), bare value, None, inherit=False, commands overridden b
 with configuration, and run-time mutations of one instance (setProperty on a parameter, enum growth through the
 real HasControlledBy.register_input).  After every op the driver records the full description of every module
 class and every instance (delta encoded)."""
+import hashlib
+import json
+import os
 import random
 
 from harness import gal
@@ -160,7 +163,15 @@ def _describe_acc(name, o, inst=None):
                 pr.append(type(e).__name__)
         d['probe'] = pr
         d['given'] = bool(getattr(o, 'given', False))
-    return d
+    if os.environ.get('C09_FULL'):
+        return d
+    # compact form (memory): the raw values the model compares + a digest of everything the oracle compares
+    full = {k: v for k, v in d.items() if k != 'pv'}
+    c = {'n': name, 'k': d['k'], 'pv': {k: v for k, v in d['pv'].items() if k in ('description', 'group', 'value', 'datatype')},
+         'h': hashlib.md5(json.dumps(full, sort_keys=True, default=str).encode()).hexdigest()[:16]}
+    if 'given' in d:
+        c['given'] = d['given']
+    return c
 
 
 def _describe_class(cls):
@@ -447,8 +458,8 @@ def run_case(case):
         chain = set(mros[ci])
         _, _, _, _, fin, cmap = _exec(case, keep_classes=chain, keep_inst=k)
         iso[f'i{k}'] = fin.get('i0')
-    obs['iso'] = iso
-    obs['final'] = final
+    obs['iso_diff'] = {ent: changed_names(iso.get(ent), desc) for ent, desc in final.items()
+                       if strip(iso.get(ent)) != strip(desc)}
     return obs
 
 
@@ -522,13 +533,11 @@ def oracle(case, obs):
                               'entity': ent, 'names': changed_names(state[ent], desc), 'op': t})
             state[ent] = desc
     # a description is a function of the own class chain and own configuration only
-    for ent, desc in obs['final'].items():
-        iso = obs['iso'].get(ent)
-        if strip(iso) != strip(desc):
-            fails.append({'class': ('class' if ent[0] == 'c' else 'instance') + '-depends-on-others',
-                          'what': f'the description of {ent} differs from the one obtained when only its own class '
-                                  f'chain (and its own configuration/mutations) exists: accessibles {changed_names(iso, desc)}',
-                          'entity': ent, 'names': changed_names(iso, desc), 'op': len(case['ops']) - 1})
+    for ent, names in sorted(obs['iso_diff'].items()):
+        fails.append({'class': ('class' if ent[0] == 'c' else 'instance') + '-depends-on-others',
+                      'what': f'the description of {ent} differs from the one obtained when only its own class '
+                              f'chain (and its own configuration/mutations) exists: accessibles {names}',
+                      'entity': ent, 'names': names, 'op': len(case['ops']) - 1})
     return fails
 
 
@@ -582,12 +591,28 @@ def f_own_datatype(case, obs, failure):
     names = failure['names']
     if names == ['*'] and failure['entity'][0] == 'i':
         ent = f'c{ci}'
-        names = changed_names(obs['iso'].get(ent), obs['final'].get(ent))
+        names = obs['iso_diff'].get(ent, [])
     if not names or any(n.startswith('*') for n in names):
         return False
     mut = {(c, n) for m in obs['own_mut'] for c, n in m}
     mro = mro_of(case, obs)[ci] or []
-    return all(any((b, n) in mut for b in mro) for n in names)
+    cl = class_ops(case)
+    mros = mro_of(case, obs)
+
+    def entries(v, n):
+        return [e for b in (mros[v] or []) for a, e in cl[b]['dict'] if a == n]
+
+    def leak_input(b, n):
+        """some class below b overrides n by a bare value while inheriting a datatype property override"""
+        for v in range(len(cl)):
+            if b in (mros[v] or []):
+                es = entries(v, n)
+                if any(e[0] == 'value' for e in es) and any(
+                        e[0] == 'param' and not e[1].get('dt') and any(e[1].get(k) is not None for k in ('min', 'max', 'unit'))
+                        for e in es):
+                    return True
+        return False
+    return all(any((b, n) in mut and leak_input(b, n) for b in mro) for n in names)
 
 
 def f_either(case, obs, failure):
@@ -596,7 +621,7 @@ def f_either(case, obs, failure):
         # the instance exists in only one of the two worlds: explained iff the description of its class differs
         # between them, in accessibles that a known finding covers
         ent = f'c{_class_of(case, failure["entity"])}'
-        names = changed_names(obs['iso'].get(ent), obs['final'].get(ent))
+        names = obs['iso_diff'].get(ent, [])
         failure = dict(failure, names=names)
     if not names or any(n.startswith('*') for n in names):
         return False
@@ -933,7 +958,7 @@ def exhaustive_cases(limit=None):
 
 def gen_cases(seed, tier):
     rng = random.Random(seed * 1000003 + 9)
-    n = {'quick': 3000, 'thorough': 40000, 'search': 40000}[tier]
+    n = {'quick': 3000, 'thorough': 24000, 'search': 24000}[tier]
     cases = [rand_case(rng) for _ in range(n)]
     ex = exhaustive_cases()
     if tier == 'quick':
